@@ -26,7 +26,8 @@ def mname(m, kw):
 
 LAYOUTS = ["F-order", "strided-view", "transposed-view", "integer", "list"]
 DERIVED = ["copy()", "T-of-transpose", "product", "view()"]
-ROUTES = ["%s/%s" % (e, mname(m, kw)) for e in ENTRIES for m, kw in METHODS] + ["DCM.to_q/default", "Quaternion.from_DCM/default"] + \
+ROUTES = ["%s/%s" % (e, mname(m, kw)) for e in ENTRIES for m, kw in METHODS] + ["DCM.to_q/default", "Quaternion.from_DCM/default", "DCM.to_quaternion/default", "Quaternion(dcm=)/default",
+          "QuaternionArray(DCM=)/default", "QuaternionArray.from_DCM/default"] + \
          ["DCM(array in any layout)", "DCM object from DCM operations"]
 PIVOTS = ["pivot_tr", "pivot_r11", "pivot_r22", "pivot_r33"]
 REGIONS = dict({r: 30 for r in gens.ROT_REGIONS if r != "generic"}, **{p: 30 for p in PIVOTS},
@@ -198,3 +199,11 @@ def check(case, ctx):
     out = call(lambda: ahrs.Quaternion().from_DCM(R.copy()))
     if ctx.returned(out, route="Quaternion.from_DCM/default"):
         judge(ctx, "Quaternion.from_DCM/default", "shepperd", out.value, R, theta)
+    # every entry point called without naming a method: the default must be of the robust class (all of SO(3), half-turns included)
+    for r, fn, shape in (("DCM.to_quaternion/default", lambda: DCM(R.copy()).to_quaternion(), (4,)),
+                         ("Quaternion(dcm=)/default", lambda: np.asarray(ahrs.Quaternion(dcm=R.copy())), (4,)),
+                         ("QuaternionArray(DCM=)/default", lambda: np.asarray(ahrs.QuaternionArray(DCM=R3.copy())), (len(R3), 4)),
+                         ("QuaternionArray.from_DCM/default", lambda: ahrs.QuaternionArray().from_DCM(R3.copy(), inplace=False), (len(R3), 4))):
+        out = call(fn)
+        if ctx.returned(out, route=r):
+            judge(ctx, r, "shepperd", out.value, R, theta, shape=shape)
